@@ -17,10 +17,14 @@ LISTS = {
     'M1': f'{F}<u16>, u32, {A}<usize,8>, {V}<{A}<u32,8>>',
     'M2': f'usize, {V}<u32>, {A}<u32,8>, {F}<u64>',   # mixed: span, aligned plain, then 8-byte objects of alignment 1 as the last parameter
     'V5': f'u32, {V}<{A}<u64,8>>, u32',          # 4-byte count: run-time padding between the count and an over-aligned span, also when the span is empty
+    'V6': f'u32, {A}<u64,8>, u32, {V}<u64>',      # 8-byte objects of alignment 1 behind a 4-byte count: elements of 4 mod 8 bytes unless the stride is re-aligned
+    'FF': f'{F}<u16>, {F}<u8>',                  # nothing but FixedSize spans: elements of zero bytes when all fixed sizes are 0
     'V4': f'usize, {V}<u8>, {A}<u32,8>',        # span whose length differences hide in the padding in front of an aligned field
     'N1': f'{F}<Tr>, Tr',
     'N2': f'{A}<usize,8>, {V}<Tr>, Tr',
     'N3': f'u32, {F}<Tr>, u16, Tr, u8',
+    'S1': f'usize, {V}<Sp>, Sp',                  # Sp: trivially destructible, not trivially copy/move constructible (address-sensitive)
+    'S2': f'{F}<Sp>, u32, Sp',
     'N4': f'usize, {V}<Tr>, usize, {V}<Tr>',      # two spans of non-trivial objects: the same total size splits differently
     'E1': 'u8, u8',
     'E2': f'u8, {A}<u32,4>',
@@ -37,11 +41,11 @@ LISTS = {
     'S16': f'{F}<u16>',                          # one multi-byte field: byte order != numeric order
     'R1': f'u32, {F}<u32>',                     # one trivially swappable/assignable run of 4 + 4n bytes, n up to 15 (C11)
 }
-TWO_SPAN = {'F2', 'V3', 'M1', 'M2', 'N4'}
+TWO_SPAN = {'F2', 'V3', 'M1', 'M2', 'N4', 'FF'}
 TRIVIAL = ['P1', 'P2', 'F1', 'F2', 'V1', 'V2', 'V3', 'M1']
 NONTRIVIAL = ['N1', 'N2', 'N3']
 CORE = TRIVIAL + NONTRIVIAL
-HAS_VARY = {'V1', 'V2', 'V3', 'M1', 'N2', 'E4', 'G2', 'V5', 'N4'}
+HAS_VARY = {'V1', 'V2', 'V3', 'M1', 'N2', 'E4', 'G2', 'V5', 'N4', 'V6', 'S1'}
 
 # ---- layout family (Mode A) -----------------------------------------------------------------------------------------
 SIZE_T = {1: 'u8', 2: 'u16', 4: 'u32', 8: 'u64', 12: 'Bs<12>', 16: 'Bs<16>'}
@@ -103,7 +107,7 @@ KIND_PROP = {
 
 def attribute_seq(aid):
     """h_seq.cpp assertion ids"""
-    if aid in (9100,) or 9001 <= aid <= 9009: return 'C06'
+    if aid in (9100,) or 9001 <= aid <= 9019: return 'C06'
     if aid == 9101: return 'C07'
     loc = aid % 100
     if loc in (7, 8, 95): return 'C02'
@@ -217,7 +221,7 @@ def pool_copy(prop, lists, tier, akinds=('ae',), ops=COPY_OPS):
 
 
 def attribute_copy(aid):
-    if aid in (9100,) or 9001 <= aid <= 9009: return 'C06'
+    if aid in (9100,) or 9001 <= aid <= 9019: return 'C06'
     if aid == 9101: return 'C07'
     if aid in (801, 802): return 'C08'
     if aid % 100 == 99: return 'C05'
@@ -242,7 +246,7 @@ def attribute_layout(aid):
 
 def attribute_ref(aid):
     if aid % 100 == 99 and aid < 9000: return 'C05'
-    if aid == 9100 or 9001 <= aid <= 9009 or aid == 297: return 'C06'
+    if aid == 9100 or 9001 <= aid <= 9019 or aid == 297: return 'C06'
     if aid == 9101: return 'C07'
     loc = aid % 100
     if loc == 96: return 'C03'
@@ -252,7 +256,7 @@ def attribute_ref(aid):
 
 def attribute_elem(aid):
     if aid % 100 == 99 and aid < 9000: return 'C05'
-    if aid == 9100 or 9001 <= aid <= 9009 or aid == 297: return 'C06'
+    if aid == 9100 or 9001 <= aid <= 9019 or aid == 297: return 'C06'
     if aid == 9101: return 'C07'
     if aid == 801: return 'C08'
     loc = aid % 100
@@ -307,7 +311,11 @@ def pool_layout(prop, tier, seed, reserved=False):
     # of the next aligned field (or the next element) is neither always 0 nor always needed
     U32, P8, A8 = ('P', 4, 1), ('P', 8, 1), ('P', 8, 8)
     packed = [((A8, ('V', 8, 1)), 'u32'), ((('V', 8, 1), A8), 'u32'), ((U32, P8, A8), 'usize'), ((A8, ('V', 8, 8), U32, P8), 'usize'),
-              ((('V', 8, 8), U32), 'u32'), ((U32, ('F', 8, 1), A8), 'usize')]
+              ((('V', 8, 8), U32), 'u32'), ((U32, ('F', 8, 1), A8), 'usize'),
+              # spans of 12-byte objects (not a power of two): an odd count ends 4 mod 8 behind an 8-aligned start
+              ((A8, ('F', 12, 1), A8), 'usize'), ((('V', 8, 8), P8, ('F', 12, 1)), f'{A}<usize,8>'),
+              # a span of intermediate alignment (1 < B < largest alignment of the list) behind a small, highly aligned field
+              ((('P', 2, 16), ('F', 4, 4)), 'usize'), ((('P', 1, 32), ('F', 2, 8), ('F', 4, 1)), 'usize'), ((('P', 2, 16), ('V', 4, 4)), 'usize')]
     if tier == 'thorough':
         for pre in ((), (A8,)):
             for lead in ((), (U32,)):
@@ -315,6 +323,11 @@ def pool_layout(prop, tier, seed, reserved=False):
                     for post in ((), (A8,), (U32,), (U32, P8)):
                         c = (pre + lead + (mid,) + post, cnt)
                         if len(c[0]) >= 2 and c not in packed: packed.append(c)
+    # lists without spans have no symbolic sizes: many elements are cheap, and a stride that is not a multiple of the element alignment
+    # only makes elements overlap after several of them
+    for nm, lst in (('P1', LISTS['P1']), ('P2', LISTS['P2']), ('P3', f'u16, {A}<u32,4>, u8, u32'), ('P4', f'u8, {A}<u16,2>, u8, u16')):
+        obs.append(layout_ob(prop, nm, lst, nelem=8, reserved=int(reserved)))
+    obs.append(layout_ob(prop, 'P3F', f'u16, {A}<u32,4>, u8, {F}<u32>', nelem=6, reserved=int(reserved)))
     for combo, cnt in packed:
         obs.append(layout_ob(prop, family_name(combo, cnt), family_list(combo, cnt), nelem=(3 if not any(k == 'V' for k, _, _ in combo) else 2), reserved=int(reserved)))
     for combo, cnt in (tails[:8] + [t for t in tails if len(t[0]) == 3] if tier == 'quick' else tails):
@@ -336,7 +349,10 @@ def pool_layout(prop, tier, seed, reserved=False):
 
 
 # ---- per property plans ---------------------------------------------------------------------------------------------
-def c01(tier, seed): return pool_seq('C01', CORE + (['M2', 'V4', 'V5'] if tier == 'thorough' else []), tier)
+def c01(tier, seed):
+    obs = pool_seq('C01', CORE + (['M2', 'V4', 'V5', 'V6'] if tier == 'thorough' else []), tier)
+    if tier == 'quick': obs += pool_seq('C01', ['V6'], tier, ops_filter=['OP_ERASE', 'OP_ERASE_RANGE', 'OP_RESERVE'])
+    return obs
 
 
 def c02(tier, seed):
@@ -381,9 +397,14 @@ def c05(tier, seed):
 
 def c06(tier, seed):
     obs = pool_seq('C06', NONTRIVIAL, tier)
+    obs += pool_seq('C06', ['S1', 'S2'], tier, ops_filter=None if tier == 'thorough' else ['OP_RESERVE', 'OP_ERASE'])
     obs += pool_elem('C06', NONTRIVIAL + ['N4'], akinds=('ae', 'st-ne', 'prop-ne'))
     obs += [ref_ob('C06', lid, part) for lid in NONTRIVIAL for part in (2, 4)]
     obs += pool_copy('C06', NONTRIVIAL, tier, akinds=('ae', 'st-ne') if tier == 'quick' else tuple(ALLOC_KINDS))
+    # "destroyed exactly once" also when an allocation inside an assignment fails (the harness and fault schedule of C17)
+    for lid in NONTRIVIAL:
+        for op in ('OP_ELEM_ASSIGN', 'OP_COPY_ASSIGN', 'OP_MOVE_ASSIGN'):
+            o = exc_ob(lid, op, 'st-ne', '0', 0); o['owner'] = 'C06'; obs.append(o)
     return obs
 
 
@@ -395,7 +416,7 @@ def c07(tier, seed):
     # select_on_container_copy_construction returning another instance: every block of the copy (storage and address table) comes from it
     obs += [copy_ob('C07', lid, 'OP_COPY_CTOR', akind='soccc-ne', aflags='AF_SOCCC', eq=0) for lid in (['V1', 'N2'] if tier == 'quick' else lists)]
     obs += pool_seq('C07', lists, tier, aflags='0')
-    obs += pool_elem('C07', ['V1', 'N2'] if tier == 'quick' else ['F1', 'V1', 'M1', 'N1', 'N2'])
+    obs += pool_elem('C07', ['V1', 'N2', 'F1', 'N1'] if tier == 'quick' else ['F1', 'V1', 'M1', 'N1', 'N2', 'P2'])
     return obs
 
 
@@ -434,11 +455,16 @@ def c09(tier, seed):
         # swap exchanges the complete contents: memory_consumption() and the recorded block size belong to them (assertions 810-813
         # are C05's footprint clause everywhere else)
         if '-DOP=OP_SWAP' in o['defines']: o['also'] = {'C05': 'C09'}
+    # a copy constructed through select_on_container_copy_construction owns all of its blocks through the selected instance
+    obs += [copy_ob('C09', lid, 'OP_COPY_CTOR', akind='soccc-ne', aflags='AF_SOCCC', eq=0) for lid in (['V1', 'N2', 'F1'] if tier == 'quick' else CORE)]
     return obs
 
 
 def c10(tier, seed):
     obs = pool_seq('C10', CORE, tier, ops_filter=['OP_RESERVE'])
+    sp = pool_seq('C10', ['S1', 'S2'], tier, ops_filter=['OP_RESERVE'])
+    for o in sp: o['also'] = {'C06': 'C10'}     # an address-sensitive stored value that is relocated bitwise by reserve is a changed value
+    obs += sp
     for lid in CORE:
         obs.append(seq_ob('C10', lid, ['OP_RESERVE', 'OP_RESERVE', 'OP_PROBE'], k0=2, smax=(1 if lid in TWO_SPAN else None)))
         if lid not in TWO_SPAN or tier == 'thorough':
@@ -545,14 +571,14 @@ def c14(tier, seed):
 
 
 def attribute_exc(aid):
-    if aid in (9100, 297) or 9001 <= aid <= 9009: return 'C17'
+    if aid in (9100, 297) or 9001 <= aid <= 9019: return 'C17'
     if aid in (9101, 9201, 9210): return 'C17'
     return 'C17'
 
 
 def attribute_empty(aid):
     if aid % 100 == 99 and aid < 9000: return 'C05'
-    if aid == 9100 or 9001 <= aid <= 9009: return 'C06'
+    if aid == 9100 or 9001 <= aid <= 9019: return 'C06'
     if aid == 9101: return 'C07'
     loc = aid % 100
     if loc == 96: return 'C03'
@@ -563,7 +589,7 @@ def attribute_empty(aid):
 
 def attribute_const(aid):
     if aid % 100 == 99 and aid < 9000: return 'C05'
-    if aid == 9100 or 9001 <= aid <= 9009: return 'C06'
+    if aid == 9100 or 9001 <= aid <= 9019: return 'C06'
     if aid == 9101: return 'C07'
     return 'C19'
 
@@ -604,7 +630,7 @@ def c17(tier, seed):
 
 def c18(tier, seed):
     obs = []
-    for lid in CORE:
+    for lid in CORE + ['S16', 'FF']:
         for lo in (0, 2, 4, 6):      # the eight follow-up operations, two per obligation
             d = [f'-DLIST={LISTS[lid]}', f'-DWHAT_LO={lo}', f'-DWHAT_HI={lo + 2}'] + (['-DSMAX=1'] if lid in TWO_SPAN else [])
             obs.append(dict(prop='C18', name=f"empty/{lid}/w{lo}", harness='h_empty.cpp', defines=d, entry='h_entry', cfg=dict(slack='min', budget_s=900), list=lid))
@@ -672,18 +698,18 @@ SPECIFIC = {
     'C01': dict(histories='emplace^k ; op ; [emplace] ; op ; [emplace] (thorough: all 36 ordered pairs of operations)'),
     'C02': dict(mode_a=MODE_A, mode_b='BOUNDS checks on every path of the history and copy shapes'),
     'C03': dict(mode_a=MODE_A), 'C04': dict(mode_a=MODE_A), 'C05': dict(mode_a=MODE_A, allocator_kinds='always-equal, stateful unequal, propagating unequal (thorough: + equal instances)'),
-    'C06': dict(lists='N1, N2, N3 (instrumented non-trivial type Tr)'),
+    'C06': dict(lists='N1, N2, N3, N4 (instrumented non-trivial type Tr); S1, S2 (address-sensitive trivially destructible type Sp)', fault_schedule='assignments on N1-N3 with one failing allocation (harness of C17)'),
     'C07': dict(allocator_kinds='always-equal, stateful unequal, propagating unequal (thorough: + equal instances)'),
     'C08': dict(traits='all 16 combinations of POCCA/POCMA/POCS/SOCCC x equal/unequal instances on V1; reduced on F1/N1 in the quick tier', elements='source 0..1 (thorough 0..2), target 0..1'),
-    'C09': dict(source='0..2 elements', target='0..1 elements (thorough 0..2)', moved_from_use='destroy / clear / assign / swap (case split)'),
+    'C09': dict(source='0..2 elements', target='0..1 elements (thorough 0..2)', moved_from_use='destroy / clear / copy-assign / swap / move-assign from a vector of another allocator instance (case split)'),
     'C10': dict(reserve_arguments='n 0..4 and b 0..64 symbolic, b >= payload stored', mode_a=MODE_A),
     'C11': dict(elements='1..3', algorithms='rotate(k), reverse, swap_ranges on 2..3 elements of equal field sizes', long_runs='list R1: fixed size 0..15 (runs of 4..64 bytes)', iterator_offsets='symbolic 64-bit within [0, size()]'),
     'C12': dict(vector='2 elements', element_sizes='both varying sizes 0..2 independent (smaller->larger and larger->smaller)'),
     'C13': dict(operands='references/elements: 1 element each; vectors: 0..2 elements each, independent fixed sizes', floats='no NaN (== is not reflexive for NaN)'),
     'C14': dict(value_domain='{0,1,2} per field (thorough additionally full width for part 3)', triples='3 elements / 3 vectors of 0..2 (third 0..1) elements, spans 0..1'),
     'C15': dict(lengths='0..2 items', pairs=EMPLACE_PAIRS if 'EMPLACE_PAIRS' in globals() else {}, forms=EMPLACE_FORMS if 'EMPLACE_FORMS' in globals() else {}),
-    'C16': dict(), 'C17': dict(failing_allocations='at most one per run, position chosen by the solver (1st .. k-th)', vectors='capacity 0..2, 0..2 elements; target 0..1 elements'),
-    'C18': dict(ways_to_be_empty=7, follow_up_operations=8), 'C19': dict(shared='vector of 0..2 (thorough 0..3) elements + second vector; a const element'),
+    'C16': dict(allocator_kinds='always-equal, propagating unequal, stateful unequal (move construction), stateful equal (move assignment, swap), swap-only propagating unequal'), 'C17': dict(failing_allocations='at most one per run, position chosen by the solver (1st .. k-th)', vectors='capacity 0..2, 0..2 elements; target 0..1 elements'),
+    'C18': dict(ways_to_be_empty=7, follow_up_operations=8, lists='core lists + S16, FF (FixedSize spans only: elements of zero bytes)'), 'C19': dict(shared='vector of 0..2 (thorough 0..3) elements + second vector; a const element', fault_schedule='k-th copy construction of a stored Tr throws (k = 1..4) while the shared vector is copied / an element is constructed from its reference'),
 }
 
 
